@@ -161,6 +161,17 @@ Arguments Mk_rtree_RTree {F}.
 Arguments rtree_RTree_root {F} _.
 Arguments rtree_RTree_count {F} _.
 
+(* geom/wkb_parser.go: type wkbParser struct *)
+Record geom_wkbParser (F : Type) := Mk_geom_wkbParser {
+  geom_wkbParser_body : (list Z);
+  geom_wkbParser_bo : Z;
+  geom_wkbParser_no : bool
+}.
+Arguments Mk_geom_wkbParser {F}.
+Arguments geom_wkbParser_body {F} _.
+Arguments geom_wkbParser_bo {F} _.
+Arguments geom_wkbParser_no {F} _.
+
 (* ==================== typed integer constants *)
 
 (* ==================== function bodies *)
@@ -431,6 +442,24 @@ Definition geom_twkbParser_checkCount (p : (geom_twkbParser F)) (count : Z) (min
   else
     true.
 
+(* geom/wkb_parser.go:wkbParser.readByte  (Unknown: the Go code panics at run time) *)
+Definition geom_wkbParser_readByte (p : (geom_wkbParser F)) : partial (Z * bool * (geom_wkbParser F))%type :=
+  if (Z.eqb (Z.of_nat (length (geom_wkbParser_body p))) 0%Z) then
+    (Known (0%Z, false, p))
+  else
+    match (lookup (geom_wkbParser_body p) 0%Z) with
+    | Some e1 =>
+    let b := e1 in
+    match (slice_from (geom_wkbParser_body p) 1%Z) with
+    | Some sl2 =>
+    let r3 := sl2 in
+    let p := (Mk_geom_wkbParser r3 (geom_wkbParser_bo p) (geom_wkbParser_no p)) in
+    (Known (b, true, p))
+    | None => (Unknown "slice bounds out of range"%string)
+    end
+    | None => (Unknown "index out of range"%string)
+    end.
+
 End Funcs.
 
-(* translated: 18 functions; not translated: 0 *)
+(* translated: 19 functions; not translated: 0 *)
